@@ -459,7 +459,7 @@ class Registry(Profile):
                 "replace_child": 6, "delete": 8, "clk": 8, "restart": 1.5, "import_xml": 2,
                 "query": 2, "shift": 1, "set_content": 0.5, "add_ns": 0.5,
                 "eml_seed": 1.5, "prune": 2, "expand": 2, "raw_append": 0.8, "forget": 0.8,
-                "x_replace_nonchild": 1, "x_replace_mismatch": 0.7, "x_remove_nonchild": 0.5}
+                "x_replace_nonchild": 1, "x_replace_mismatch": 0.7, "x_remove_nonchild": 0.5, "import_json": 0.5}
 
     def tune(self, cfg, rng):
         cfg["nsess"] = rng.choice([2, 2, 3, 4])
@@ -522,7 +522,7 @@ class Registry(Profile):
                                              "%s unregistered h%d, which live node h%d (not discarded) still lists" % (k, h, l),
                                              {"node": h, "lister": l})
         # E1: nodes that came into being in this step are registered under their id
-        creating = k in ("new", "copy", "import_xml", "restart", "expand", "eml_seed", "plant", "add_ref")
+        creating = k in ("new", "copy", "import_xml", "import_json", "restart", "expand", "eml_seed")
         for h in range(c.nh, len(c.post.cells)):
             pc = c.post.cells[h]
             if pc is None:
@@ -695,7 +695,7 @@ class CopyP(Profile):
                 "add_attr": 3, "rm_attr": 2, "attr_item": 3, "extras_item": 3, "add_extras": 2,
                 "add_ns": 4, "rm_ns": 2, "remove_child": 3, "shift": 2, "replace_child": 2,
                 "set_name": 1, "delete": 1, "remove_children": 0.5, "set_nsmap": 0.5, "eml_seed": 1,
-                "import_xml": 0.7, "nsmap_item": 2, "query": 5}
+                "import_xml": 0.7, "nsmap_item": 2, "query": 5, "import_json": 0.3}
 
     def start(self, state):
         state["pairs"] = []      # (orig_set, copy_set)
@@ -831,7 +831,7 @@ class ReadOnly(Profile):
         return {"new": 5, "add_child": 6, "ro": 40, "query": 8, "set_content": 4, "set_tail": 1,
                 "add_attr": 2, "rm_attr": 2, "add_ns": rng.choice([1, 1, 6]), "set_prefix": 1, "remove_child": 1,
                 "shift": 1, "eml_seed": 3, "import_xml": 1.5, "copy": 1, "add_extras": 1, "delete": 0.7,
-                "set_name": 1, "rm_ns": 0.3, "restart": 0.3}
+                "set_name": 1, "rm_ns": 0.3, "restart": 0.3, "import_json": 0.7}
 
     def tune(self, cfg, rng):
         cfg["alphabets"] = sorted(set(cfg["alphabets"]) | {"xml"}) if rng.random() < 0.7 else cfg["alphabets"]
